@@ -103,6 +103,10 @@ pub enum Fault {
     EofEarly { sticky: bool },
     /// read delivers k bytes now; the next read of the stream fails with kind
     PartialThenFail { k: u32, kind: ErrorKind },
+    /// NOT a fault: a legal short read of k bytes placed at one call (the first half of
+    /// PartialThenFail without the failure). Used to tell a short-read sensitivity (C07's
+    /// subject) from a fault residue.
+    Short { k: u32 },
 }
 
 impl Fault {
@@ -113,6 +117,7 @@ impl Fault {
             Fault::EofEarly { sticky: false } => "eof_early_transient",
             Fault::EofEarly { sticky: true } => "eof_early_sticky",
             Fault::PartialThenFail { .. } => "partial_then_fail",
+            Fault::Short { .. } => "legal_short_read",
         }
     }
     pub fn to_json(&self) -> J {
@@ -128,6 +133,9 @@ impl Fault {
                 .with("decision", J::s("PartialThenFail"))
                 .with("k", J::u(k as u64))
                 .with("kind", J::s(kind_name(kind))),
+            Fault::Short { k } => J::obj()
+                .with("decision", J::s("Short"))
+                .with("k", J::u(k as u64)),
         }
     }
     pub fn from_json(j: &J) -> Option<Fault> {
@@ -142,6 +150,7 @@ impl Fault {
                 k: j.gu("k") as u32,
                 kind: kind_from(j.gs("kind")),
             }),
+            "Short" => Some(Fault::Short { k: j.gu("k") as u32 }),
             _ => None,
         }
     }
@@ -400,7 +409,10 @@ impl ReaderState {
 
     fn tick(&mut self) {
         self.events_in_op += 1;
-        if self.events_in_op > STEP_CAP_PER_OP {
+        // a 1-byte reader with EINTR legitimately needs a few calls per byte: the cap
+        // scales with the stream so that only a call that spins can reach it
+        let cap = (STEP_CAP_PER_OP as u64).saturating_add(16 * self.image.len() as u64);
+        if self.events_in_op as u64 > cap {
             self.step_cap_hit = true;
             alloc::set_scope(alloc::OFF);
             std::panic::panic_any(StepCapHit);
@@ -506,6 +518,7 @@ impl Read for SimReader {
                     s.log(ev);
                     return Err(io::Error::from(kind));
                 }
+                Fault::Short { .. } => {}
             }
         }
         // 3. an explicit fault placement
@@ -540,6 +553,20 @@ impl Read for SimReader {
                     ev.result = 0;
                     s.log(ev);
                     return Ok(0);
+                }
+                Fault::Short { k } => {
+                    let n = (k.max(1) as u64).min(want).min(avail) as usize;
+                    let p = s.pos as usize;
+                    if n > 0 {
+                        buf[..n].copy_from_slice(&s.image[p..p + n]);
+                    }
+                    s.pos += n as u64;
+                    s.note_delivered(pos_before, pos_before + n as u64);
+                    s.counters.short_reads += 1;
+                    ev.dec = DEC_SHORT;
+                    ev.result = n as i64;
+                    s.log(ev);
+                    return Ok(n);
                 }
                 Fault::PartialThenFail { k, kind } => {
                     s.counters.partial_then_fail += 1;
